@@ -49,7 +49,7 @@ class Ctx:
 class CachingMachine(Machine):
     pid = "C14"
     title = "Caching functions are history-independent and interpolate the cached function"
-    quick_runs = 4000
+    quick_runs = 16000
     thorough_runs = 500000
     per_run_timeout = 60
     components_real = ["cherab.core.math.caching.Caching1D/2D/3D (compiled)", "cherab.core.math.interpolators.utility",
